@@ -115,6 +115,9 @@ def run_invocation(spec):
         del os.environ[k]
     # as if `cond` were started from inside a task of an enclosing Conductor run
     os.environ.update(spec.get("outer_env") or {})
+    if (spec.get("proc") or {}).get("block_sigchld"):
+        # started by a process that keeps SIGCHLD blocked: the mask is inherited across fork and exec
+        signal.pthread_sigmask(signal.SIG_BLOCK, {signal.SIGCHLD})
     if (spec.get("proc") or {}).get("one_cpu"):
         # pinned to one CPU (taskset / cpuset / container)
         try:
